@@ -149,8 +149,11 @@ NoCountedDiff(rows, o, sel, i, j) ==
   DiffCounts(rows[i], rows[j], sel, o.wts, mode, FALSE).diff = 0 /\ DiffCounts(rows[i], rows[j], sel, o.wts, mode, FALSE).total > 0
 
 \* ---- the matrix ---------------------------------------------------------------------------------------
+\* an estimate is defined when it is a finite, non-negative number.  For the distances in substitutions per site the code
+\* also gives up above 100 000 (a number no alignment supports: taken as saturation); the raw distance is a (weighted)
+\* COUNT of differences, for which any finite value is an answer (large site weights, genome-scale alignments)
 Big == FParse("100000")
-Defined(x) == FIsFinite(x) /\ FLe(FInt(0), x) /\ FLe(x, Big)
+DefinedFor(model, x) == FIsFinite(x) /\ FLe(FInt(0), x) /\ (model = "rawdist" \/ FLe(x, Big))
 Corrected(model) == model \in {"jc", "k2p", "f81", "f84", "tn93"}
 InRange(r, i, j) ==          \* r = <<r1min, r1max, r2min, r2max>> 0-based, or all -1
   IF r[1] < 0 \/ r[2] < 0 \/ r[3] < 0 \/ r[4] < 0 THEN i # j
@@ -168,7 +171,7 @@ MatrixChecksWith(e, useBnd) ==
       est == Strict([p \in pairs |-> Estimate(rows, o, pi, sel, p[1], p[2])])
       obs(i, j) == FParse(e.m[i][j])
       bnd == IF useBnd THEN {p \in pairs : OnBoundary(rows, o, pi, sel, p[1], p[2])} ELSE {}
-      defd == {p \in pairs \ bnd : Defined(est[p])}
+      defd == {p \in pairs \ bnd : DefinedFor(o.model, est[p])}
       maxd == IF defd = {} THEN FInt(0) ELSE FoldLeft(LAMBDA acc, p : FMax(acc, est[p]), FInt(0), SetToSeq(defd))
       \* the substitute is twice the largest defined entry; a boundary pair the code found defined takes part in that maximum
       substs == {FMul(FInt(2), maxd)} \cup {FMul(FInt(2), FMax(maxd, obs(k[1], k[2]))) : k \in {k \in bnd : FIsFinite(obs(k[1], k[2]))}}
@@ -202,6 +205,6 @@ UnstablePair(rows, o, i, j) ==
       pairs == {<<a, b>> \in (1..n) \X (1..n) : a < b}
       bnd == {p \in pairs : OnBoundary(rows, o, pi, sel, p[1], p[2])}
       lo == IF i < j THEN i ELSE j   hi == IF i < j THEN j ELSE i
-  IN i # j /\ Corrected(o.model) /\ bnd # {} /\ (<<lo, hi>> \in bnd \/ ~Defined(Estimate(rows, o, pi, sel, lo, hi)))
+  IN i # j /\ Corrected(o.model) /\ bnd # {} /\ (<<lo, hi>> \in bnd \/ ~DefinedFor(o.model, Estimate(rows, o, pi, sel, lo, hi)))
 EncodableRows(rows) == \A r \in 1..Len(rows) : \A l \in 1..Len(rows[r]) : Encodable(rows[r][l])
 =============================================================================
